@@ -44,6 +44,7 @@ class Effect:
         self.guards = []
         self.undec = None
         self.bodies = []
+        self.opaque = []        # conditions the writes are control dependent on that are not dominating guards (disjunctive / match forms)
 
 
 class ObjModel:
@@ -137,6 +138,14 @@ class ObjModel:
             bb = ev[3].bb
             if not all(cfg.dominates(bb, r) for r in cfg.returns):
                 e.undec = e.undec or 'a write to self is conditional (bb%d does not lie on every path to the return)' % bb
+        dom_conds = set()
+        for r in cfg.returns:
+            for c_, v_ in g.guards().get(r, []):
+                dom_conds.add(c_)
+        for ev in events:
+            for c_ in g.control_conds(ev[3].bb):
+                if c_ not in dom_conds and c_ not in e.opaque and tag(c_) != 'const':
+                    e.opaque.append(c_)
         state = {}
 
         def sub(v):
@@ -191,6 +200,10 @@ class ObjModel:
                     state[fi] = tr(v)
                 for gd in he.guards:
                     guards.append(gmap(gd, tr))
+                for oc in he.opaque:
+                    toc = tr(oc)
+                    if toc not in e.opaque:
+                        e.opaque.append(toc)
         own = self.fn_guards(g)
         e.state = state
         e.guards = []
